@@ -417,6 +417,26 @@ impl<S: Clone + Debug> SymbolTable<S> {
         result
     }
 
+    /// The path of a symbol from the root, through the scopes it was defined in (and not through the scopes it may have
+    /// been imported into)
+    pub fn defining_path(&self, nx: SymbolIndex) -> IdentifierPath {
+        let mut ids = vec![];
+        let mut cur = nx;
+        while let Some(parent_nx) = self.parent(cur) {
+            match self
+                .graph
+                .edges_directed(parent_nx, Direction::Outgoing)
+                .find(|edge| edge.target() == cur)
+            {
+                Some(edge) => ids.push(edge.weight().clone()),
+                None => break,
+            }
+            cur = parent_nx;
+        }
+        ids.reverse();
+        IdentifierPath::new(&ids)
+    }
+
     pub fn all(&self) -> HashMap<IdentifierPath, (SymbolIndex, &S)> {
         let mut result = HashMap::new();
         self.all_impl(&mut result, self.root, "".into());
